@@ -82,12 +82,15 @@ func (w *world) viewString() string {
 	return sb.String()
 }
 
+// The summary is printed before and after the history (the driver shows the tail of a long failure output).
 func (w *world) violate(format string, a ...any) {
-	w.t.Fatalf("C16 violated: %s\n%s", fmt.Sprintf(format, a...), w.context())
+	msg := fmt.Sprintf(format, a...)
+	w.t.Fatalf("C16 violated: %s\n%s\n== C16 violated: %s [view %s, command: %s]", msg, w.context(), msg, w.viewString(), w.cmd)
 }
 
 func (w *world) harness(format string, a ...any) {
-	w.t.Fatalf("harness: %s\n%s", fmt.Sprintf(format, a...), w.context())
+	msg := fmt.Sprintf(format, a...)
+	w.t.Fatalf("harness: %s\n%s\n== harness: %s [view %s, command: %s]", msg, w.context(), msg, w.viewString(), w.cmd)
 }
 
 // do sends a command. A panic of a gluon goroutine (no tagged response ever arrives) is noticed without waiting for
